@@ -327,6 +327,16 @@ def adversarial_cases(tier, first_id):
         texts.append(("nest%d" % n, "?" * n))
         texts.append(("nest%d" % n, "**/" * n))
         texts.append(("nest%d" % n, "[" + "a" * n + "]"))
+    # character classes: ascending, equal and descending ranges, negated or not, escaped members, in every context
+    members = ["a", "z", "0", "9", "A", "é", "α", "β", "/", ".", "\\-", "\\]", "!", "金"]
+    for x in members:
+        for y in members:
+            for cls in ("[%s-%s]" % (x, y), "[!%s-%s]" % (x, y), "[%s-%sq]" % (x, y), "[!q%s-%s]" % (x, y)):
+                texts.append(("class", cls))
+                texts.append(("class", "a%sb" % cls))
+            texts.append(("class", "{q,[!%s-%s]}" % (x, y)))
+            texts.append(("class", "<[%s-%s]:1,2>" % (x, y)))
+            texts.append(("class", "(?i)[!%s-%s]/**" % (x, y)))
     alphabet = list("?*$:<>()[]{},\\-!/aA.\n") + ["é", "金", "\u0301", "\U0001F600", "\u212a", "ǅ", "\x00", "\x7f"]
     for _ in range(3000 if tier == "quick" else 30000):
         n = rnd.randint(1, 12)
@@ -399,10 +409,13 @@ def check_C05(tier):
 
 def check_C07(tier):
     t0 = time.time()
-    fams = [("core", 5), ("mini", 6)] if tier == "quick" else [("core", 6), ("mini", 7), ("case", 4)]
+    fams = [("core", 5), ("mini", 6), ("flags", 6)] if tier == "quick" else [("core", 6), ("mini", 7), ("case", 4), ("flags", 6)]
     base = L.family_cases(tier, fams)
     fam_of = {tuple(c["e"]): c["fam"] for c in base}
     with_branch = [c for c in base if 123 in c["e"] or 60 in c["e"]]
+    # of the flags family only expressions that have a flag as well as a branch (quick: a seeded half)
+    rnd0 = random.Random(C.SEED + 7)
+    with_branch = [c for c in with_branch if c["fam"] != "flags" or (40 in c["e"] and (tier == "thorough" or rnd0.random() < 0.5))]
     rels = L.gen_relations(with_branch, tier)
     rnd = random.Random(C.SEED)
     if tier == "quick":
